@@ -103,8 +103,8 @@ package executor
 
 //@ func (*mySQLUndoUpdateExecutor).ExecuteOn
 //@   prop C09 C01 C10
-//@   at call GetOrderedPkList: assert C01/keys-of-the-row-being-restored: arg_row == row && arg_image == m.sqlUndoLog.BeforeImage
-//@   ensures C01/a-statement-that-changed-no-row-needs-no-undo: called("dataValidationAndGoOn#1") && callres("dataValidationAndGoOn#1", 0) && callres("dataValidationAndGoOn#1", 1) == nil && m.sqlUndoLog.BeforeImage != nil && len(m.sqlUndoLog.BeforeImage.Rows) == 0 ==> result == nil && !called("PrepareContext#1")
+//@   at call GetOrderedPkList: assert keys-of-the-row-being-restored: arg_row == row && arg_image == m.sqlUndoLog.BeforeImage
+//@   ensures a-statement-that-changed-no-row-needs-no-undo: called("dataValidationAndGoOn#1") && callres("dataValidationAndGoOn#1", 0) && callres("dataValidationAndGoOn#1", 1) == nil && m.sqlUndoLog.BeforeImage != nil && len(m.sqlUndoLog.BeforeImage.Rows) == 0 ==> result == nil && !called("PrepareContext#1")
 //@   modifies ghost.all, heap.all
 //@   requires m != nil && conn != nil && m.baseExecutor != nil
 //@   ensures validated-first: ghost.stmts_open != old(ghost.stmts_open) || ghost.execs != old(ghost.execs) || called("PrepareContext#1") ==> called("dataValidationAndGoOn#1")
@@ -115,8 +115,8 @@ package executor
 
 //@ func (*mySQLUndoDeleteExecutor).ExecuteOn
 //@   prop C09 C01 C10
-//@   at call GetOrderedPkList: assert C01/keys-of-the-row-being-restored: arg_row == row && arg_image == m.sqlUndoLog.BeforeImage
-//@   ensures C01/a-statement-that-changed-no-row-needs-no-undo: called("dataValidationAndGoOn#1") && callres("dataValidationAndGoOn#1", 0) && callres("dataValidationAndGoOn#1", 1) == nil && m.sqlUndoLog.BeforeImage != nil && len(m.sqlUndoLog.BeforeImage.Rows) == 0 ==> result == nil && !called("PrepareContext#1")
+//@   at call GetOrderedPkList: assert keys-of-the-row-being-restored: arg_row == row && arg_image == m.sqlUndoLog.BeforeImage
+//@   ensures a-statement-that-changed-no-row-needs-no-undo: called("dataValidationAndGoOn#1") && callres("dataValidationAndGoOn#1", 0) && callres("dataValidationAndGoOn#1", 1) == nil && m.sqlUndoLog.BeforeImage != nil && len(m.sqlUndoLog.BeforeImage.Rows) == 0 ==> result == nil && !called("PrepareContext#1")
 //@   modifies ghost.all, heap.all
 //@   requires m != nil && conn != nil && m.baseExecutor != nil
 //@   ensures validated-first: ghost.stmts_open != old(ghost.stmts_open) || ghost.execs != old(ghost.execs) || called("PrepareContext#1") ==> called("dataValidationAndGoOn#1")
@@ -127,7 +127,7 @@ package executor
 
 //@ func (*mySQLUndoInsertExecutor).ExecuteOn
 //@   prop C09 C01 C10
-//@   ensures C01/a-statement-that-changed-no-row-needs-no-undo: called("dataValidationAndGoOn#1") && callres("dataValidationAndGoOn#1", 0) && callres("dataValidationAndGoOn#1", 1) == nil && m.sqlUndoLog.AfterImage != nil && len(m.sqlUndoLog.AfterImage.Rows) == 0 ==> result == nil && !called("PrepareContext#1")
+//@   ensures a-statement-that-changed-no-row-needs-no-undo: called("dataValidationAndGoOn#1") && callres("dataValidationAndGoOn#1", 0) && callres("dataValidationAndGoOn#1", 1) == nil && m.sqlUndoLog.AfterImage != nil && len(m.sqlUndoLog.AfterImage.Rows) == 0 ==> result == nil && !called("PrepareContext#1")
 //@   modifies ghost.all, heap.all
 //@   requires m != nil && conn != nil && m.BaseExecutor != nil
 //@   ensures validated-first: ghost.stmts_open != old(ghost.stmts_open) || ghost.execs != old(ghost.execs) || called("PrepareContext#1") ==> called("dataValidationAndGoOn#1")
@@ -135,3 +135,15 @@ package executor
 //@   ensures no-write-when-stopped: called("dataValidationAndGoOn#1") && !callres("dataValidationAndGoOn#1", 0) ==> !called("PrepareContext#1") && ghost.execs == old(ghost.execs)
 //@   ensures stop-is-success: called("dataValidationAndGoOn#1") && !callres("dataValidationAndGoOn#1", 0) && callres("dataValidationAndGoOn#1", 1) == nil ==> result == nil
 //@   at call PrepareContext#1: assert same-conn: called("dataValidationAndGoOn#1") && callarg("dataValidationAndGoOn#1", 2) == conn
+
+// C01: the names in a compensating statement. MySQL's reserved words are reserved in every letter case:
+// a column called `desc`, `key` or `Order` must be back-quoted like one called DESC, or the statement is
+// a syntax error and the branch can never be rolled back. The keyword table (keyed in upper case) is the
+// environment.
+//@ ext seata.apache.org/seata-go/pkg/datasource/sql/types.GetMysqlKeyWord
+//@   ensures result != nil
+//@ func checkEscape
+//@   prop C01 C09
+//@   ensures a-keyword-is-recognised-in-any-letter-case: dbType == types.DBTypeMySQL && called("GetMysqlKeyWord#1") ==> result == haskey(callres("GetMysqlKeyWord#1", 0), upper(colName))
+//@   ensures the-table-is-asked: dbType == types.DBTypeMySQL ==> called("GetMysqlKeyWord#1")
+//@   nopanic
